@@ -386,6 +386,8 @@ func runC17(c *core.Ctx) core.Meta {
 		}
 	})
 
+	checkBankOrder(c, p, prov)
+
 	// R17.5 FIELDS
 	item := `postPipelineBuf\.Peek\(\)\.req`
 	p.CheckFields("R17.5", []FieldSpec{
